@@ -616,14 +616,48 @@ def _raw_rep_owner(e):
     return None
 
 
+def _rep_info(e, defs, depth=0):
+    """-> (owner text, [scaling factor exprs]) if e is a (scaled) raw
+    homogeneous representative of an object, else None."""
+    o = _raw_rep_owner(e)
+    if o is not None:
+        return o, []
+    if isinstance(e, ast.Name) and e.id in defs and depth < 4:
+        return _rep_info(defs[e.id], defs, depth + 1)
+    if isinstance(e, ast.UnaryOp) and isinstance(e.op, (ast.USub, ast.UAdd)):
+        return _rep_info(e.operand, defs, depth)
+    if isinstance(e, ast.BinOp) and isinstance(e.op, (ast.Mult, ast.Div)):
+        l = _rep_info(e.left, defs, depth)
+        if l is not None:
+            return l[0], l[1] + [e.right]
+        if isinstance(e.op, ast.Mult):
+            rr = _rep_info(e.right, defs, depth)
+            if rr is not None:
+                return rr[0], rr[1] + [e.left]
+    return None
+
+
+def _mentions(e, owner, defs, depth=0):
+    """Does expression e (with locals inlined) read from object `owner`?"""
+    root = owner.split(".")[0].split("[")[0]
+    for n in ast.walk(e):
+        if isinstance(n, ast.Name):
+            if n.id == root:
+                return True
+            if n.id in defs and depth < 4 and _mentions(defs[n.id], owner,
+                                                        defs, depth + 1):
+                return True
+    return False
+
+
 def rule_h1(ctx):
     r = ctx.r
     r.rule("H1", "no sum/difference a +- b of raw homogeneous "
                  "representatives (.proj_data) of two distinct objects unless "
-                 "an operand is scaled by a factor depending on both objects "
-                 "(sign/scale alignment)")
+                 "an operand is scaled by a factor whose expression depends "
+                 "on both objects (sign/scale alignment)")
     m = ctx.p.module_by_rel(HYP)
-    n_sites = 0
+    n_bad = 0
     for f in ctx.p.all_functions:
         if f.module is not m or f.parent is not None:
             continue
@@ -632,41 +666,40 @@ def rule_h1(ctx):
             if not (isinstance(n, ast.BinOp)
                     and isinstance(n.op, (ast.Add, ast.Sub))):
                 continue
-
-            def owner(e, depth=0):
-                o = _raw_rep_owner(e)
-                if o is not None:
-                    return o, False
-                if isinstance(e, ast.Name) and e.id in defs and depth < 3:
-                    return owner(defs[e.id], depth + 1)
-                return None, False
-            lo, _ = owner(n.left)
-            ro, _ = owner(n.right)
-            if lo is None or ro is None or lo == ro:
+            li = _rep_info(n.left, defs)
+            ri = _rep_info(n.right, defs)
+            if li is None or ri is None or li[0] == ri[0]:
                 continue
-            n_sites += 1
             r.analysed(f)
             con = dotted(n)
             parents = f.module.parents
             st = n
             while not isinstance(st, ast.stmt):
                 st = parents[st]
+            aligned = any(_mentions(fac, li[0], defs) and
+                          _mentions(fac, ri[0], defs)
+                          for fac in li[1] + ri[1])
+            inst = f"{f.qualname}:{con[:70]}"
+            if aligned:
+                r.ok("H1", inst, loc(f, n), norm_stmt(st)[:140],
+                     "one representative is rescaled by a factor computed "
+                     "from both objects before the combination")
+                continue
+            n_bad += 1
             r.violation(
                 "H1", f"{f.fq}|{norm_stmt(st)}", loc(f, n),
                 norm_stmt(st)[:160],
-                f"`{con}` combines the raw representatives of two different "
-                f"objects ({lo}, {ro}); each has an independent non-zero "
-                "scale, so the result depends on the sign/scale of the "
-                "inputs (with q given as -3*q the unit tangent from p "
-                "points away from q)", instance=f"{f.qualname}:{con}")
-    # aligned sites are recognised as: operand is a product with a factor
-    # that mentions both objects -- those never reach the loop above because
-    # the operand is then a BinOp(Mult), not a raw representative.
-    if n_sites == 0:
+                f"`{con}` combines the homogeneous representatives of two "
+                f"different objects ({li[0]}, {ri[0]}) without aligning "
+                "them; each has an independent non-zero scale, so the result "
+                "depends on the sign/scale of the inputs (with q given as "
+                "-3*q the unit tangent from p points away from q)",
+                instance=inst)
+    if n_bad == 0:
         r.ok("H1", "hyperbolic.py", HYP, "",
              "no unaligned sum/difference of raw representatives of "
              "distinct objects")
-    return n_sites
+    return n_bad
 
 
 # ---------------------------------------------------------------------------
